@@ -110,6 +110,10 @@ Theorem C01_chunk_writes_are_feed : forall H h kd cb i cs s w,
 Proof. exact run_writes_feed. Qed.
 Print Assumptions C01_chunk_writes_are_feed.
 
+(* [nofail s]: no callback of a save whose executor job FAILED (IoFail: disk full, no permission, ...) is still
+   queued in s.  A failed write leaves the blob unverified and writeable (theorem 1 covers every history, failed
+   writes included: never verified without the bytes stored); the next complete correct copy is then saved again. *)
+
 (* 4. First complete correct copy wins - on a fresh object and on every later delivery to the same object: after
       ANY history (reads and deletes included), if a live writer receives the chunk that completes a correct copy,
       then (a) whatever operations other than a reset follow, as soon as the ready queue is empty and the executor
@@ -120,6 +124,7 @@ Theorem C01_first_complete_copy_wins : forall H h kd cb file expected, start_ok 
   let s := run H h kd cb ops (start kd file expected) in
   nth_error (s_ws s) i = Some w -> w_open w = true -> w_fut w = FPending -> s_len s = Some L -> 0 < L ->
   N.of_nat (length (w_buf w ++ d)) = L -> H (w_buf w ++ d) = h ->
+  nofail s ->
   let s1 := fst (step H h kd cb (Write i d) s) in
   (forall ops', core_ops ops' -> let s' := run H h kd cb ops' s1 in s_q s' = [] -> s_io s' = None ->
      s_verified s' = true /\ exists b, s_store s' = Some b /\ H b = h /\ N.of_nat (length b) = L)
@@ -142,6 +147,7 @@ Theorem C01_first_complete_copy_exact_bytes : forall H h kd cb file expected, st
   N.of_nat (length (w_buf w ++ d)) = L -> H (w_buf w ++ d) = h ->
   s_verified s = false -> s_writing s = false ->
   (forall j, In (QWfc j) (s_q s) -> loser s j) ->
+  nofail s ->
   let s1 := fst (step H h kd cb (Write i d) s) in
   forall ops' x, core_ops ops' -> s_store (run H h kd cb ops' s1) = Some x -> x = w_buf w ++ d.
 Proof. exact first_copy_exact_start. Qed.
@@ -190,6 +196,20 @@ Theorem C01_length_inside_accepted : forall n s,
   (0 <= n <= Z.of_N MAX_BLOB_SIZE)%Z -> s_len s = None -> s_len (set_length n s) = Some (Z.to_N n).
 Proof. exact (set_length_accepted (fun b => b) nil). Qed.
 Print Assumptions C01_length_inside_accepted.
+
+(* 5b. BlobManager.is_blob_verified(hash, any length) and ensure_completed_blobs_status([hash]) for the object the
+       manager holds are pure queries, and they answer "yes" - the latter then records the blob as 'finished', which is
+       what gets it announced (theorem 6) - only for a verified blob storing bytes of the accepted length that hash
+       to the name, after any history. *)
+Theorem C01_manager_says_verified_only_if_verified : forall H h kd cb file expected, start_ok H h kd file expected ->
+  forall ops o, (o = Ensure \/ exists n, o = IsVerified n) ->
+  snd (step H h kd cb o (run H h kd cb ops (start kd file expected))) = RBool true ->
+  let s := run H h kd cb ops (start kd file expected) in
+  fst (step H h kd cb o s) = s /\ s_verified s = true /\
+  exists b L, s_store s = Some b /\ s_len s = Some L /\ N.of_nat (length b) = L
+              /\ 0 < L <= MAX_BLOB_SIZE /\ H b = h.
+Proof. exact manager_yes_only_verified_start. Qed.
+Print Assumptions C01_manager_says_verified_only_if_verified.
 
 (* 6. "... announced only if ...".  The blob table and get_blobs_to_announce (Model/C01Announce.v), for every list
       of table operations (add_blobs pending/finished, set_announce, single announce, update_last_announced,
@@ -268,6 +288,20 @@ Example C01_ex_announce :
   let t := arun [AAdd 1 false; AAdd 2 false; AAdd 3 false; AAdd 3 true] [] in
   (to_announce false 1000 t, to_announce true 1000 t, to_announce true 1000 (arun [AShould 3; AShould 1] t)) = ([3], [], [3]).
 Proof. vm_compute. reflexivity. Qed.
+
+(* the defect repaired by 82794e2 (the done-callbacks of save_verified_blob ignored the outcome of the write task),
+   on a model of the OLD code ([run_oldfail]) and on the model: a complete correct copy is delivered, the disk write
+   fails; old: verified, completion callback fired, nothing stored; now: not verified, writeable, nothing announced,
+   and a second delivery is saved *)
+Example C01_failed_write_marks_verified_refuted :
+  let ops := [SetLength 3; Open 1; Write 0 nm; Drain; IoFail; Drain] in
+  let so := run_oldfail Hid nm KFile true ops init in
+  let sn := run Hid nm KFile true ops init in
+  let sr := run Hid nm KFile true (ops ++ [Open 2; Write 1 nm; Drain; IoDone; Drain]) init in
+  (s_verified so, s_store so, s_completed so) = (true, None, 1%nat)
+  /\ (s_verified sn, s_store sn, s_completed sn, s_writing sn, s_q sn) = (false, None, 0%nat, false, [])
+  /\ (s_verified sr, s_store sr, s_completed sr) = (true, Some nm, 1%nat).
+Proof. exact failed_write_old_vs_new. Qed.
 
 (* over-long by one byte: InvalidDataError, nothing stored, nothing verified *)
 Example C01_ex_overlong :
